@@ -6,7 +6,7 @@
    of the columns gives the same result), foreign items, loops and save frames leave the state untouched, numeric access
    never substitutes a value, and an InvalidatingError rejects the read at every level. *)
 From Coq Require Import List Ascii String ZArith Bool Lia Arith Permutation.
-From PV Require Import Base.Sx Base.Text Base.Num Spec.Hier Model.PdbLex Model.PdbParse Model.CifLex Model.CifParse Proofs.C06lex Proofs.C02lay Proofs.C02col.
+From PV Require Import Base.Sx Base.Text Base.Num Spec.Hier Model.PdbLex Model.PdbParse Model.CifLex Model.CifParse Proofs.C06lex Proofs.C02lay Proofs.C02col Proofs.C02seq.
 Import ListNotations.
 
 (* 1. white space and comments between tokens do not matter *)
@@ -85,6 +85,28 @@ Theorem C02_foreign_item_inert : forall dh fo ao s name v, recognised name = fal
   item_step dh fo ao s (IData (DSingle name v)) = s.
 Proof. intros. cbn [item_step]. destruct ao; [reflexivity|]. apply foreign_single. assumption. Qed.
 
+(* 2d. the lexer inverts the printer on whole constructs: for every sequence of values, every legal spelling of each (bare
+       word, quoted, text field, '.', '?'), and every separator made of white space and comments:
+       - the value loop reads back exactly the values and goes on with what follows them;
+       - a printed loop (header names, then the values) is read back as its names and its values in rows of the header's width;
+       - a printed single item is read back as its name and value *)
+Theorem C02_values_read_back : forall toks vs, tokens toks vs -> forall fuel tail, ends_word tail ->
+  values (List.length toks + fuel) (render toks ++ tail) =
+  option_map (fun r : list cval * text => (vs ++ fst r, snd r)%list) (values fuel tail).
+Proof. exact values_render. Qed.
+Theorem C02_loop_read_back : forall g0 hs g s v r vs tail e tail' fuel,
+  gap g0 -> hs <> [] -> Forall header_ok hs -> separator g -> spelled s v -> tokens r vs -> ends_word tail ->
+  parse_value tail = (inr e, tail') ->
+  (List.length hs < fuel)%nat -> (S (List.length r) < fuel)%nat ->
+  Nat.modulo (List.length (v :: vs)) (List.length hs) = O ->
+  parse_data_item fuel (g0 ++ stext "loop_" ++ render_headers hs ++ g ++ s ++ render r ++ tail) =
+  Some (inl (DLoop (map snd hs) (chunk (S (List.length (v :: vs))) (List.length hs) (v :: vs))), tail').
+Proof. exact loop_render. Qed.
+Theorem C02_item_read_back : forall g0 name g s v rest fuel,
+  gap g0 -> forallb (fun x => negb (is_aws x)) name = true -> separator g -> spelled s v -> ends_word rest ->
+  parse_data_item fuel (g0 ++ "_"%char :: name ++ g ++ s ++ rest) = Some (inl (DSingle name v), rest).
+Proof. exact item_render. Qed.
+
 (* 3. numeric access never substitutes a value *)
 Theorem C02_number_or_error : forall v f, get_f64 v = inl (Some f) -> v = VNum f.
 Proof. intros v f. destruct v; simpl; intros H; inversion H; reflexivity. Qed.
@@ -120,6 +142,9 @@ Print Assumptions C02_foreign_column.
 Print Assumptions C02_frame_inert.
 Print Assumptions C02_foreign_loop_inert.
 Print Assumptions C02_foreign_item_inert.
+Print Assumptions C02_values_read_back.
+Print Assumptions C02_loop_read_back.
+Print Assumptions C02_item_read_back.
 Print Assumptions C02_number_or_error.
 Print Assumptions C02_text_in_numeric_column.
 Print Assumptions C02_invalidating_rejects.
